@@ -21,7 +21,7 @@ RUNS = {"quick": 8000, "thorough": 250000}
 WALL = {"quick": 280, "thorough": 3500}
 RULE = ("one run = document + history of adds/renames to fresh and used identifiers + removals; "
         "distinct = distinct (namespace digest, op) pairs")
-PROBES = ["dup_same_type", "dup_other_type", "dup_vs_id_tag", "rename_used", "rename_fresh", "group_merge",
+PROBES = ["virtual_link_named", "dup_same_type", "dup_other_type", "dup_vs_id_tag", "rename_used", "rename_fresh", "group_merge",
           "int_names", "unused_name", "lookup_unused", "complement_link", "mention_clash", "self_mention"]
 
 
@@ -148,6 +148,23 @@ def gen(streams, tier, i):
                     ln = "\t".join(f)
             ops.append({"op": "add", "line": ln, "as": hr.choice(["str", "obj"])})
             m.add_text(ln)
+    if version == "gfa1" and hr.random() < 0.12:
+        # a path over two fresh segments without a link: its placeholder link gets an identifier (the library
+        # names it when the path is converted, or the caller does); another link then claims that identifier
+        sh = hist.Shadow(version, m.render())
+        sh.reserved = set(m.all_mentions())
+        x1, x2, px = sh.fresh(hr), sh.fresh(hr), sh.fresh(hr)
+        if len({x1, x2, px}) == 3:
+            segs = sorted(x for x in m.namespace() if m.namespace()[x][0].rt == "S")
+            other = hr.choice(segs) if segs else x1
+            same = hr.random() < 0.35
+            tpl = ("L\t%s\t+\t%s\t+\t4M" % (x1, x2)) if same else hr.choice(
+                ["L\t%s\t-\t%s\t+\t2M" % (other, x2), "L\t%s\t+\t%s\t-\t4M" % (x1, x2),
+                 "L\t%s\t+\t%s\t+\t3M" % (x1, x2)])
+            ops += [{"op": "add", "line": "S\t%s\t*" % x1, "as": "str"}, {"op": "add", "line": "S\t%s\t*" % x2, "as": "str"},
+                    {"op": "add", "line": "P\t%s\t%s+,%s+\t4M" % (px, x1, x2), "as": "str"},
+                    {"op": "vlink_clash", "path": px, "how": hr.choice(["to_gfa2", "by_hand"]), "tpl": tpl,
+                     "same": same}]
     return {"cfg": {"version": version, "vlevel": vlevel, "order": mode}, "ops": ops}
 
 
@@ -203,6 +220,52 @@ def check_lookup(w, m, st, n, op):
                                  (name, "returned" if o.ok else o.excname), op=op["op"])
 
 
+def vlink_clash(w, g, op, st, n):
+    p = g.line(op["path"])
+    if p is None or p.record_type != "P":
+        return
+    if op["how"] == "to_gfa2":
+        if not core.call(p.to_gfa2).ok:
+            return
+    vls = [ol.line for ol in p.links if ol.line.virtual]
+    if not vls:
+        return
+    vl = vls[0]
+    if op["how"] == "by_hand":
+        if not core.call(setattr, vl, "name", "vk1").ok:
+            return
+    nm = vl.name
+    if not isinstance(nm, str) or nm == "*":
+        return
+    st.count("probe.virtual_link_named")
+    st.count("oracle.virtual_link_id")
+    if g.line(nm) is not vl:
+        raise core.Violation("lookup-wrong", "step %d: the placeholder link of path %s carries %r but looking it up "
+                             "returns %r" % (n, op["path"], nm, g.line(nm)), op="vlink_clash")
+    line = op["tpl"] + "\tID:Z:" + nm
+    before = ob.line_text(vl)
+    out = core.call(g.add_line, line)
+    if op["same"]:
+        if not out.ok:
+            raise core.Violation("fresh-rejected", "step %d: %r is the link the path %s asks for, under the identifier "
+                                 "its placeholder carries, but raised %s: %s" %
+                                 (n, line, op["path"], out.excname, str(out.exc)[:200]), op="vlink_clash",
+                                 exc=out.excname)
+    else:
+        if out.ok or out.excname != "NotUniqueError":
+            raise core.Violation("dup-accepted", "step %d: adding %r whose identifier %r is in use by %r %s" %
+                                 (n, line, nm, before, "was accepted" if out.ok else "raised %s" % out.excname),
+                                 op="vlink_clash", rt="L", prev="L", exc=out.excname)
+        if g.line(nm) is not vl:
+            raise core.Violation("lookup-wrong", "step %d: after the refused %r the identifier %r is carried by %r" %
+                                 (n, line, nm, g.line(nm)), op="vlink_clash")
+    try:
+        inv.registry_coherent(g)
+    except inv.Bad as b:
+        raise core.Violation("registry-" + b.clause, "after step %d %r: %s" % (n, op, b.detail),
+                             op="vlink_clash", rts=list(b.rts))
+
+
 def run(scn, st):
     w = World(st)
     version = scn["cfg"]["version"]
@@ -232,6 +295,9 @@ def run(scn, st):
                 raise core.Violation("unused-name-used", "step %d: unused_name() returned %r which is in use" %
                                      (n, o.value), op=kind)
             continue
+        if kind == "vlink_clash":
+            vlink_clash(w, g, op, st, n)
+            return
         exp = None
         if kind == "add":
             exp = expected_add(m, op["line"])
